@@ -76,6 +76,7 @@ type c15Case struct {
 	SrcDir   string    `json:"src"`
 	Manifest []byte    `json:"manifest"`
 	Streams  int       `json:"streams"`
+	Complete bool      `json:"complete"` // every file's records and frames are all there (whatever else is odd): no excuse to wait
 	MustErr  string    `json:"musterr"` // the script violates this stated guard of the protocol: the endpoint has to return an error
 }
 
@@ -1233,6 +1234,20 @@ func runC15(cfg config) *hx.Report {
 		}
 		add(c)
 	}
+	// --- complete transfers with inconsistent counts: more data streams announced than are ever
+	// opened (everything else honest, every frame delivered, End sent, all streams closed)
+	for t := 0; t < 6*scale; t++ {
+		items := c15GenItems(rng, 1+rng.Intn(3))
+		k := 1 + rng.Intn(2)
+		resume := rng.Bool()
+		hctl, hdata := c15Honest(items, uint32(rng.Pick(4, 8, 16)), k, resume)
+		hctl[0] = c15Rec{"DataStreams", c15Enc(transfer.DataStreams{Count: uint16(k + 1 + rng.Intn(3))})}
+		c := c15Case{Kind: "recv-fuzz", Tag: "complete:streams-over-announced", Complete: true, Resume: resume, Items: items, Header: c15Header(items), Ctl: c15Cat(hctl)}
+		for _, d := range hdata {
+			c.Data = append(c.Data, c15Cat(d))
+		}
+		add(c)
+	}
 	// --- corpus: replays of defects that were repaired in the repository
 	{
 		it := []c15Item{{Path: "f", Size: 9, ID: "00000000000000f1"}}
@@ -1501,7 +1516,7 @@ func runC15(cfg config) *hx.Report {
 			rep.Violate(c15PanicSig(side, r.Panic)+":"+tagClass, fmt.Sprintf("%s endpoint panicked on a %s script: %s", side, c.Tag, r.Panic), replay)
 		case c15OutHang:
 			sig := "hang:" + side + ":" + tagClass
-			if side == "recv" && c15HasEnd(c.Ctl) {
+			if side == "recv" && c15HasEnd(c.Ctl) && !c.Complete {
 				sig = "hang:recv:end-before-completion"
 			}
 			rep.Violate(sig, fmt.Sprintf("%s endpoint did not return within %s after every stream had ended (%s script)", side, w, c.Tag), replay)
